@@ -96,6 +96,11 @@ def check_cfg(n, d, sc, fc, st, wfn, rfn):
         DIR = (MF / sc) * sc
         a, b, c = (astnum.ev(x, cx) for x in outer.iter.args)
         cx.env[outer.target.id] = DIR
+        # simple local assignments of the loop body that the arange / mask expressions may refer to (evaluated in source order)
+        for st_ in outer.body:
+            if isinstance(st_, ast.Assign) and len(st_.targets) == 1 and isinstance(st_.targets[0], ast.Name) and st_.value is not ar and st_.value is not mask and st_.value is not fmt:
+                try: cx.env[st_.targets[0].id] = astnum.ev(st_.value, cx)
+                except astnum.Unsupported: pass
         a2, b2, c2 = (astnum.ev(x, cx) for x in ar.args)
         def evf(node):
             if isinstance(node, ast.Compare):
